@@ -238,8 +238,42 @@ func untypedWrap(x interface{}, k int) interface{} {
 	return x
 }
 
+// renameKeys returns a copy of v in which the first key of every map is replaced by key.
+func renameKeys(v *schema.V, key string) *schema.V {
+	if v == nil {
+		return nil
+	}
+	c := v.Clone()
+	for n, fv := range c.Fields {
+		c.Fields[n] = renameKeys(fv, key)
+	}
+	for i, it := range c.Items {
+		c.Items[i] = renameKeys(it, key)
+	}
+	if c.Mem != nil {
+		c.Mem = renameKeys(c.Mem, key)
+	}
+	if len(c.Keys) > 0 {
+		ent := map[string]*schema.V{}
+		keys := append([]string{}, c.Keys...)
+		for i, k := range keys {
+			nk := k
+			if i == 0 {
+				nk = key
+				keys[0] = key
+			}
+			ent[nk] = renameKeys(c.Ent[k], key)
+		}
+		c.Keys, c.Ent = keys, ent
+	}
+	return c
+}
+
 func checkExclusion(w *schema.Type, spec [][]string, mode string, offset int) (kind, detail string) {
-	rich := schema.Rich(w)
+	return checkExclusionOn(w, schema.Rich(w), spec, mode, offset)
+}
+
+func checkExclusionOn(w *schema.Type, rich *schema.V, spec [][]string, mode string, offset int) (kind, detail string) {
 	ps := specOf(spec)
 	want := prune(rich, spec, nil)
 	switch mode {
@@ -559,6 +593,35 @@ func partC07(a *hcli.Args, rep *report.Report, univName string, u *schema.Univer
 						s.Class(fmt.Sprintf("ok:%s:%s", mode, t))
 					}
 				}
+			}
+		}
+		// map keys that look like protocol markers or wildcards, under every single-path spec
+		if strings.Contains(n, "M") {
+			sk := rep.S("exclusion-hostile-map-keys")
+			sk.Bounds = "map-bearing schemas x every single-path spec x the rich value with a map key renamed to each of {$set, $delete, $params, *, empty, a/b} x all modes"
+			for _, key := range []string{"$set", "$delete", "$params", "*", "", "a/b"} {
+				val := renameKeys(schema.Rich(w), key)
+				for i := range cands {
+					item++
+					if !a.Mine(item) {
+						continue
+					}
+					spec := [][]string{cands[i]}
+					for _, mode := range exclModes {
+						kind, detail := checkExclusionOn(w, val, spec, mode, 0)
+						sk.Evaluations++
+						sk.Transitions++
+						sk.Traces++
+						if kind != "" {
+							rep.Fail(fmt.Sprintf("%s excl %s %s %s map-key=%q spec=%s", a.Gen, mode, kind, w.Name, key, shapeOfSpec(spec)),
+								fmt.Sprintf("type %s value %s spec %v mode %s: %s", w.Name, val, specStrings(spec), mode, detail), nil)
+							sk.Class("fail:" + kind)
+						} else {
+							sk.Class("ok:" + mode)
+						}
+					}
+				}
+				sk.States++
 			}
 		}
 		rep.Sample(map[string]interface{}{"type": n, "candidate_paths": len(cands), "specs": len(specs), "example_spec": specStrings(specs[len(specs)/2])})
